@@ -31,10 +31,18 @@ def tie(rep, tier, rng, model_ok):
     f = [simgen.gen_fault(rng, rng.choice(["panic", "norecip_model", "dead_query"])) for _ in range(200 if q else 3000)]
     # more models than one injector bucket of the multi-threaded executor holds (128): every one must be initialised
     w = [simgen.gen_wide(rng) for _ in range(4 if q else 40)]
+    # deadlocks in which a SUB-model holds unprocessed messages: the report must name it parent.child
+    ds = []
+    while len(ds) < (120 if q else 2500):
+        c = simgen.gen_deadlock(rng)
+        if any(m.get("parent") is not None for m in c["models"]):
+            ds.append(c)
     simprops.run(rep, "C16", model_ok,
                  [("wide", w, (1, 2, 4), ORACLES, lambda c, o: True),
                   ("hierarchies", a, (1, 4) if q else (1, 2, 4, 8, 16), ORACLES, nontrivial),
-                  ("names-in-reports", f, (1, 4), (oracles.o_harness, oracles.o_attribution, oracles.o_init), lambda c, o: len(c["models"]) > 2)],
+                  ("names-in-reports", f, (1, 4), (oracles.o_harness, oracles.o_attribution, oracles.o_init), lambda c, o: len(c["models"]) > 2),
+                  ("deadlocked-sub-models", ds, (1, 4), (oracles.o_harness, oracles.o_deadlock_report, oracles.o_init),
+                   lambda c, o: any(x[0].split(":")[0] == "dead" for x in o))],
                  "wide: 129..300 models (more than one 128-task injector bucket), each must be initialised once. hierarchies of depth 0..3 (sub-models added in ProtoModel::build, some unnamed), init scripts sending events/queries to other models (including not-yet-initialised ones), mailboxes of capacity 1..16; oracle: one init per added model, inside SimInit::init, before any of its handlers, Context::name() = parent.child. non-trivial = has a sub-model and an init script")
 
 
